@@ -10,8 +10,12 @@
                | (decldiv div|mod A A) | (assdiv <i> div|mod A A)     int x = a / b;  xi = a % b;
                | (call none <f> A ...) | (call decl <f> A ...) | (call assign <i> <f> A ...)
                | (return) | (return A)
-           E ::= (lit 0|1) | (bvar j) | (cmp OP A A) | (not E) | (and E E) | (or E E)
-           A ::= (i k) | (n z) | (ar add|sub|mul A A) | (un neg|pos A)
+           E ::= (lit 0|1) | (bvar j) | (bglob h) | (cmp OP A A) | (not E) | (and E E) | (or E E)
+           A ::= (i k) | (n z) | (ar add|sub|mul A A) | (un neg|pos A) | (glob g)
+           globals: (glob g) reads the g-th int global, (bglob h) the h-th bool global;
+               S ::= ... | (assg g A) | (assgdiv g div|mod A A) | (call assigng g <f> A ...) | (assbg h E)
+               `prog` and `run` lines take (ginit z ...) (binit 0|1 ...) before the functions: the
+               initial values of the int / bool globals
            int locals are numbered in declaration order (the parameters first), bool locals
            likewise; a block's locals go out of scope at its end.
            or a whole program:           prog <w> <stack_size> (fun <nparams> S ...) ...
@@ -100,7 +104,8 @@ let rec opd_of = function
 let rec expr_of = function
   | L [Atom "lit"; Atom "0"] -> BLit false
   | L [Atom "lit"; Atom "1"] -> BLit true
-  | L [Atom "bvar"; Atom j] -> BVar (nat_of_int (int_of_string j))
+  | L [Atom "bvar"; Atom j] -> BVar (BLocal (nat_of_int (int_of_string j)))
+  | L [Atom "bglob"; Atom h] -> BVar (BGlobal (nat_of_int (int_of_string h)))
   | L [Atom "cmp"; Atom op; a; b] -> BCmp (op_of op, opd_of a, opd_of b)
   | L [Atom "not"; e] -> BNot (expr_of e)
   | L [Atom "and"; a; b] -> BAnd (expr_of a, expr_of b)
@@ -135,6 +140,7 @@ let rec stmt_of = function
   | L (Atom "call" :: Atom "assigng" :: Atom g :: Atom f :: args) ->
     SCall (DAssignG (nat_of_int (int_of_string g)), nat_of_int (int_of_string f), List.map opd_of args)
   | L [Atom "assg"; Atom g; a] -> SAssignG (nat_of_int (int_of_string g), opd_of a)
+  | L [Atom "assbg"; Atom h; e] -> SAssignBG (nat_of_int (int_of_string h), expr_of e)
   | L [Atom "assgdiv"; Atom g; Atom op; a; b] -> SAssignGDiv (nat_of_int (int_of_string g), dop_of op, opd_of a, opd_of b)
   | L [Atom "return"] -> SReturn None
   | L [Atom "return"; a] -> SReturn (Some (opd_of a))
@@ -159,10 +165,13 @@ let run_line (line : string) : string =
        let (gi, fs) = (match fs0 with
            | L (Atom "ginit" :: gv) :: fs -> (List.map (function Atom a -> z_of_string a | _ -> failwith "bad initialiser") gv, fs)
            | fs -> ([], fs)) in
+       let (bi, fs) = (match fs with
+           | L (Atom "binit" :: gv) :: fs -> (List.map (function Atom a -> z_of_string a | _ -> failwith "bad initialiser") gv, fs)
+           | fs -> ([], fs)) in
        let funs = List.map fun_of fs in
        let d = Z.mul (Z.add (Z.add (z_of_int (int_of_string stack)) (z_of_int (List.length args))) (z_of_int 1)) wz in
-       if not (run_ok_b wz (nat_of_int (List.length gi)) funs (z_of_int (int_of_string stack)) (nat_of_int (List.length args))) then "unchecked" else
-       (match icall wz funs (nat_of_fuel (int_of_string fuel)) d O args gi with
+       if not (run_ok_b wz (nat_of_int (List.length gi)) (nat_of_int (List.length bi)) funs (z_of_int (int_of_string stack)) (nat_of_int (List.length args))) then "unchecked" else
+       (match icall wz funs (nat_of_fuel (int_of_string fuel)) d O args (gi, bi) with
         | None -> "nofuel"
         | Some (evs, res) ->
           String.concat "\t"
@@ -177,11 +186,15 @@ let run_line (line : string) : string =
     let (gi, fs) = (match parse_all rest with
         | L (Atom "ginit" :: gv) :: fs -> (List.map (function Atom a -> z_of_string a | _ -> failwith "bad initialiser") gv, fs)
         | fs -> ([], fs)) in
+    let (bi, fs) = (match fs with
+        | L (Atom "binit" :: gv) :: fs -> (List.map (function Atom a -> z_of_string a | _ -> failwith "bad initialiser") gv, fs)
+        | fs -> ([], fs)) in
     let funs = List.map fun_of fs in
     let np = match funs with f :: _ -> f.fn_params | [] -> failwith "no entry point" in
     let ginit g = (let rec nth l k = match l, k with x :: _, O -> x | _ :: r, S k' -> nth r k' | [], _ -> Z0 in nth gi g) in
+    let binit g = (let rec nth l k = match l, k with x :: _, O -> x | _ :: r, S k' -> nth r k' | [], _ -> Z0 in nth bi g) in
     String.concat "\t"
-      (List.map (fun d -> string_of_chars (print_dline d)) (state_section_g (z_of_int (int_of_string stack)) np funs ginit)
+      (List.map (fun d -> string_of_chars (print_dline d)) (state_section_g (z_of_int (int_of_string stack)) np funs ginit binit)
        @ ("%section code" :: List.map (fun l -> string_of_chars (print_aline l)) (lower_program wz funs)))
   | w :: np :: rt :: rest ->
     let s0 = is_you_senv (z_of_int (int_of_string w)) (nat_of_int (int_of_string np)) in
